@@ -101,3 +101,68 @@ Proof.
   rewrite !bind_app, Hmu. unfold mutation_rate, zlen, ZtoQ.
   destruct const; destruct (flip_mutation c _ ds2) as [[o ds3]|]; reflexivity.
 Qed.
+
+(* PDPGA: one parent of the selected ones is remembered (its raw fitness is what "success" is later measured against); the draw is
+   one index below the number of selected parents, taken between selection and crossover *)
+Lemma random_sample_one n ds : random_sample n 1 true ds = bind (popI n) (fun v => ret [v]) ds.
+Proof.
+  unfold random_sample, bind, popI, ret. destruct ds as [|[u|m v|x] r]; cbn; try reflexivity.
+  destruct (m =? n); [|reflexivity]. destruct r; reflexivity.
+Qed.
+
+Theorem code_PDPGA_choice_parent (f : list Q) ds :
+  py_PDPGA_choice_parent f ds = bind (popI (zlen f)) (fun i => ret (getQ f i)) ds.
+Proof.
+  unfold py_PDPGA_choice_parent. cbv zeta. rewrite bind_app.
+  change 1 with (Z.of_nat 1). rewrite (code_random_sample (zlen f) 1 true ds (or_introl eq_refl)), random_sample_one, !bind_app.
+  destruct (popI (zlen f) ds) as [[v ds1]|]; [|reflexivity]. rewrite !ret_app, getZ_0. reflexivity.
+Qed.
+
+Theorem code_PDPGA_get_new_individ_g
+    (selpy : list Q -> list Q -> Z -> Z -> M (list Z)) (sel : list Q -> list Q -> nat -> nat -> M (list Z)) (tour q : nat)
+    (cxpy cx : list (list Z) -> list Q -> list Q -> M (list Z)) (mupy : list Z -> Q -> M (list Z))
+    (proba : Q) (const : bool) fs fr fit pop ds :
+  selpy fs fr (Z.of_nat tour) (Z.of_nat q) ds = sel fs fr tour q ds ->
+  (forall r ds', sel fs fr tour q ds = Some (r, ds') -> Forall (fun v => 0 <= v) r) ->
+  (forall a b c ds', cxpy a b c ds' = cx a b c ds') ->
+  (forall c p ds', mupy c p ds' = flip_mutation c p ds') ->
+  py_PDPGA_get_new_individ_g selpy (Z.of_nat tour) cxpy (Z.of_nat q) mupy proba const fs fr fit pop ds
+  = bind (sel fs fr tour q) (fun r =>
+      bind (popI (Z.of_nat (length r))) (fun i =>
+        bind (cx (gather [] pop r) (gather 0%Q fs r) (gather 0%Q fr r)) (fun c =>
+          bind (flip_mutation c (mutation_rate proba const (length c))) (fun o =>
+            ret (getQ (gather 0%Q fit r) i, o))))) ds.
+Proof.
+  intros Hsel Hnn Hcx Hmu. unfold py_PDPGA_get_new_individ_g. unfold row in *. cbv zeta. rewrite !bind_app, Hsel.
+  destruct (sel fs fr tour q ds) as [[r ds1]|] eqn:E; [|reflexivity].
+  pose proof (Hnn r ds1 eq_refl) as Hr.
+  rewrite !bind_app, code_PDPGA_choice_parent, !bind_app.
+  replace (zlen (gatherQz fit r)) with (Z.of_nat (length r)) by (unfold zlen, gatherQz; now rewrite map_length).
+  destruct (popI (Z.of_nat (length r)) ds1) as [[i ds2]|]; [|reflexivity].
+  rewrite !ret_app, !bind_app, Hcx, (gatherR_gather pop r Hr), !(gatherQz_gather _ r Hr).
+  destruct (cx (gather [] pop r) (gather 0%Q fs r) (gather 0%Q fr r) ds2) as [[c ds3]|]; [|reflexivity].
+  rewrite !bind_app, Hmu. unfold mutation_rate, zlen, ZtoQ.
+  destruct const; destruct (flip_mutation c _ ds3) as [[o ds4]|]; rewrite ?ret_app; reflexivity.
+Qed.
+
+(* ... whose offspring component is the model's new_individ_pdp (the remembered value is not part of that model) *)
+Theorem code_PDPGA_offspring
+    (selpy : list Q -> list Q -> Z -> Z -> M (list Z)) (sel : list Q -> list Q -> nat -> nat -> M (list Z)) (tour q : nat)
+    (cxpy cx : list (list Z) -> list Q -> list Q -> M (list Z)) (mupy : list Z -> Q -> M (list Z))
+    (proba : Q) (const : bool) fs fr fit pop ds :
+  selpy fs fr (Z.of_nat tour) (Z.of_nat q) ds = sel fs fr tour q ds ->
+  (forall r ds', sel fs fr tour q ds = Some (r, ds') -> Forall (fun v => 0 <= v) r) ->
+  (forall a b c ds', cxpy a b c ds' = cx a b c ds') ->
+  (forall c p ds', mupy c p ds' = flip_mutation c p ds') ->
+  match py_PDPGA_get_new_individ_g selpy (Z.of_nat tour) cxpy (Z.of_nat q) mupy proba const fs fr fit pop ds with
+  | Some ((_, child), ds') => new_individ_pdp sel tour q cx proba const pop fs fr ds = Some (child, ds')
+  | None => new_individ_pdp sel tour q cx proba const pop fs fr ds = None
+  end.
+Proof.
+  intros Hsel Hnn Hcx Hmu. rewrite (code_PDPGA_get_new_individ_g selpy sel tour q cxpy cx mupy proba const fs fr fit pop ds Hsel Hnn Hcx Hmu).
+  unfold new_individ_pdp. unfold row in *. rewrite !bind_app.
+  destruct (sel fs fr tour q ds) as [[r ds1]|]; [|reflexivity].
+  rewrite !bind_app. destruct (popI (Z.of_nat (length r)) ds1) as [[i ds2]|]; [|reflexivity].
+  rewrite !bind_app. destruct (cx (gather [] pop r) (gather 0%Q fs r) (gather 0%Q fr r) ds2) as [[c ds3]|]; [|reflexivity].
+  rewrite !bind_app. destruct (flip_mutation c _ ds3) as [[o ds4]|]; [|reflexivity]. rewrite ret_app. reflexivity.
+Qed.
